@@ -456,7 +456,7 @@ func staleNextAdopted(tr *Trace) (bool, string) {
 // attributeStale re-keys the violations of a run whose history shows a stale dispatch, so that they match the known
 // finding and nothing else does. A dead host is never re-keyed.
 func attributeStale(out *kit.Outcome, tr *Trace, prop string) {
-	if len(out.Violations) == 0 || tr == nil {
+	if len(out.Violations) == 0 || tr == nil || os.Getenv("VERIF_NO_ATTRIBUTE") != "" {
 		return
 	}
 	if ok, why := staleDispatch(tr); ok {
